@@ -327,6 +327,28 @@ func (p *Prog) lockWrappers() map[string]wrapperSum {
 		}
 		w[k] = wrapperSum{Field: fieldName, Class: mutexClass(info, inner), Mode: mode, Acq: acq, Try: try}
 	}
+	// a function that does nothing but call a wrapper of a package-level mutex is such a wrapper itself
+	// (processClock.LockSnapshot = sequence.LockSnapshot)
+	for round := 0; round < 2; round++ {
+		for k, fi := range p.Funcs {
+			if _, done := w[k]; done || fi.Decl.Body == nil || len(fi.Decl.Body.List) != 1 {
+				continue
+			}
+			es, ok := fi.Decl.Body.List[0].(*ast.ExprStmt)
+			if !ok {
+				continue
+			}
+			call, ok := es.X.(*ast.CallExpr)
+			if !ok || len(call.Args) != 0 {
+				continue
+			}
+			if fn, _ := typeutil.Callee(fi.Pkg.TypesInfo, call).(*types.Func); fn != nil {
+				if inner, isW := w[fkey(fn)]; isW && inner.Global != "" {
+					w[k] = inner
+				}
+			}
+		}
+	}
 	p.wrappers = w
 	return w
 }
@@ -527,6 +549,37 @@ func (p *Prog) lockOpOf(pkg *packages.Package, c *ast.CallExpr) *LockOp {
 	}
 	if w, ok := p.lockWrappers()[fkey(fn)]; ok && w.Global != "" {
 		return &LockOp{Path: w.Global, Class: w.Class, Mode: w.Mode, Acquire: w.Acq, Try: w.Try}
+	}
+	// the same through an interface whose implementations (by the wiring) are all wrappers of one global mutex
+	if sig, _ := fn.Type().(*types.Signature); sig != nil && sig.Recv() != nil {
+		if _, isIface := sig.Recv().Type().Underlying().(*types.Interface); isIface && fn.Pkg() != nil && strings.HasPrefix(fn.Pkg().Path(), modPrefix) {
+			var sum *wrapperSum
+			same := true
+			n := 0
+			for _, k := range p.calleeKeys(pkg, c) {
+				if k == fkey(fn.Origin()) {
+					continue
+				}
+				if fi := p.Func(k); fi == nil || fi.Decl.Recv == nil {
+					continue // what a forwarder hands on to
+				}
+				w, ok := p.lockWrappers()[k]
+				if !ok || w.Global == "" {
+					same = false
+					break
+				}
+				n++
+				if sum == nil {
+					ww := w
+					sum = &ww
+				} else if *sum != w {
+					same = false
+				}
+			}
+			if same && n > 0 && sum != nil {
+				return &LockOp{Path: sum.Global, Class: sum.Class, Mode: sum.Mode, Acquire: sum.Acq, Try: sum.Try}
+			}
+		}
 	}
 	sel, ok := ast.Unparen(c.Fun).(*ast.SelectorExpr)
 	if !ok {
